@@ -61,6 +61,11 @@ def network_tt_over(g, names: list[str]):
     n = len(names)
     gvars, gtt = [], []
     for gn in gnames:
+        if g.get_update_function(gn) is None:
+            # free input: identity dynamics
+            gvars.append(names.index(gn) + 1)
+            gtt.append([(s >> names.index(gn)) & 1 for s in range(1 << n)])
+            continue
         f = graph.mk_update_function(gn)
         col = []
         for s in range(1 << n):
@@ -89,7 +94,7 @@ def record_pure(tid: str, tt: list[list[int]], seed: int, kinds: list[str], per_
     rng = random.Random(seed)
     n = len(tt)
     names0 = bn.names_for(n)
-    net = ba.BooleanNetwork.from_bnet(bn.render_bnet(tt, names0))
+    net = ba.BooleanNetwork.from_bnet(bn.render_bnet(tt, names0, free_inputs=rng.random() < 0.5))
     names = list(net.variable_names())
     assert names == names0
     graph = ba.AsynchronousGraph(net)
@@ -231,7 +236,8 @@ def record_pure(tid: str, tt: list[list[int]], seed: int, kinds: list[str], per_
                 r = drivers.find_single_drivers(space_of(e["sp"], names), net)
                 e["drv"] = [{"v": names.index(v) + 1, "val": int(x)} for (v, x) in sorted(r)]
             emit(e, call)
-    return {"tid": tid, "net": {"n": n, "f": tt}, "events": events}
+    inputs = [i + 1 for i, nm in enumerate(names) if net.get_update_function(nm) is None]
+    return {"tid": tid, "net": {"n": n, "f": tt, "inp": inputs}, "events": events}
 
 
 def _work(task: dict) -> str:
